@@ -195,3 +195,15 @@ CHECKS['C14'] = dict(
          'bytes in order (a prefix only if a timer was made to fire early), one OKAY per consumed device WRTE with the stream ids, host chunks '
          '<= maxdata, never two un-acked host WRTEs, every call ends by its timeout, no deadlock / lost wake-up.',
     note='The device queues its scripted messages without waiting for host acks; random schedules are outside this technique family.')
+
+CHECKS['C19'] = dict(
+    engine='sched', level='model_checking', design_ref='DESIGN.md#c19',
+    technique='exhaustive input/history enumeration on the real logging path + stateless schedule exploration of two concurrent / staggered runs',
+    text='inputs: 10 logger kinds (test.logger, record logger and child, plug logger, framework loggers incl. the record prefix itself, another '
+         'run\'s record loggers, a uid that is a prefix of the uid, a logger outside openhtf) x 7 message/argument shapes x 6 MAC forms with two '
+         'record handlers alive: recorded exactly once in the right run(s), redacted, metadata present, logging call never raises; histories: '
+         'all sequences of 3-4 consecutive runs over {pass, fail, exception, timeout}: no handler remains, finished records untouched by later '
+         'logging; schedules: two Test.execute() calls in two threads, concurrent and staggered (run B started by an external gate at any '
+         'moment of run A\'s close), explored under the controlled scheduler.',
+    note='Deviation-bounded (every non-default choice costs 1) for the two-run scenarios because preemption bounding with free forced '
+         'switches explodes with 6+ threads; bounds in the evidence.')
